@@ -70,6 +70,22 @@ class ByteSeq(T):
         return v
 
 
+class BytesOfLen(T):
+    """byte string of a fixed length: static list of symbolic ints in [0, 256)"""
+
+    def __init__(self, n, hi=256):
+        self.n = n
+        self.hi = hi
+
+    def make(self, it, name):
+        items = []
+        for k in range(self.n):
+            v = it.sym_int(f"{name}[{k}]")
+            it.run.assume(z3.And(it.cmp_z3(">=", v.e, 0), it.cmp_z3("<", v.e, self.hi)))
+            items.append(v)
+        return SList(items, "bytes")
+
+
 class NoneT(T):
     def make(self, it, name):
         return None
